@@ -83,6 +83,10 @@ def handle (j : Json) : E String := do
   if call == "rules" then
     return s!"\{\"id\":{id.compress},\"diag\":{showStrs Op.diagRuleTable},\"trace\":{showStrs Op.traceRuleTable}}"
   let A ← jOp ((j.getObjVal? "op").toOption.getD .null)
+  -- "reach": only the decidable input predicate `Op.hutchReach` and the extents (operators of huge extent:
+  -- every other field of the header walks payloads or index ranges)
+  if call == "reach" then
+    return s!"\{\"id\":{id.compress},\"rows\":{A.rows},\"cols\":{A.cols},\"hutch\":{A.hutchReach}}"
   let cl := A.clauses
   let algs : List Op.AlgK := [.auto, .exact, .hutch, .hutchpp]
   let dtcl : List String := if A.ruleZeroMult then ["bdiag-zero-multiplicity"] else []
